@@ -93,7 +93,20 @@ def check(case):
                 step = core.dataflows.dump_to_path(os.path.join(dd, 'out'), **copy.deepcopy(opts))
             else:
                 step = core.dataflows.dump_to_zip(os.path.join(dd, 'out.zip'), **copy.deepcopy(opts))
-            dp, stats = core.Flow(core.from_state(state), step).process()
+            tail = []
+            if cfg.get('consumer') == 'lookup':
+                def lookup(package):
+                    # uses the second resource as a lookup table: reads it completely before the rows of the first one
+                    yield package.pkg
+                    it = iter(package)
+                    a = next(it)
+                    b = next(it)
+                    rows_b = list(b)
+                    yield a
+                    yield iter(rows_b)
+                    yield from it
+                tail = [lookup]
+            dp, stats = core.Flow(core.from_state(state, sequential=False if tail else None), step, *tail).process()
             if cfg['how'] == 'zip':
                 root = os.path.join(dd, 'unz')
                 with zipfile.ZipFile(os.path.join(dd, 'out.zip')) as z:
@@ -265,6 +278,10 @@ def cases(tier):
                         out.append({'table': table, 'cfg': {'format': fmt, 'how': how, 'counters': 'default', 'filehash': fh, 'pretty': pretty}})
                         out.append({'table': table, 'cfg': {'format': fmt, 'how': how, 'counters': 'renamed', 'filehash': fh, 'pretty': pretty}})
                 out.append({'table': table, 'cfg': {'format': fmt, 'how': how, 'counters': 'default', 'pretty': False}})
+            if len(TABLES[table]) >= 2:
+                for how in ('path', 'zip'):
+                    out.append({'table': table, 'cfg': {'format': fmt, 'how': how, 'counters': 'default', 'consumer': 'lookup'}})
+                out.append({'table': table, 'cfg': {'format': fmt, 'how': 'path', 'counters': 'dotted', 'consumer': 'lookup'}})
             out.append({'table': table, 'cfg': {'format': fmt, 'how': 'path', 'counters': 'default', 'redump': True}})
             out.append({'table': table, 'cfg': {'format': fmt, 'how': 'path', 'counters': 'default', 'rerun': True}})
             out.append({'table': table, 'cfg': {'format': fmt, 'how': 'path', 'counters': 'dotted', 'rerun': True}})
